@@ -29,7 +29,7 @@ ENUM = ["graph shape bits, node kinds, requested subset, failing subset, excepti
 OUTSIDE = ["real process boundary of the multiprocessing scheduler, unpicklable exceptions", "graphs with more than N nodes"]
 BOUNDS = {
     "quick": dict(N="<=2 (all transports), 3 (kinds {Task, DataNode}, transports default/threaded, chunksize {-1,2})", failing="every non-empty subset of task nodes", num_workers="symbolic >= 1, unbounded",
-                  chunksize=list(SC.CHUNKSIZES), transports=["default", "threaded", "multiprocessing(identity dumps)"]),
+                  chunksize=list(SC.CHUNKSIZES), transports=["default", "threaded", "multiprocessing(identity dumps)", "threaded with multiprocessing.pool worker semantics"]),
     "thorough": dict(N="<=3 (kinds {Task, DataNode, Alias, legacy list}), 4 (kinds {Task}), all transports", failing="every non-empty subset",
                      num_workers="symbolic >= 1, unbounded", chunksize=list(SC.CHUNKSIZES)),
 }
@@ -39,7 +39,7 @@ def functions():
     return SC.sched_functions() + [dask.threaded.pack_exception, MP.pack_exception, MP.remote_exception]
 
 
-TRANSPORTS = ("default", "threaded", "mp")
+TRANSPORTS = ("default", "threaded", "mp", "pool")
 
 
 def mk(N, kinds, transports=TRANSPORTS, chunks=SC.CHUNKSIZES, excs=(0, 1, 2)):
@@ -52,7 +52,7 @@ def mk(N, kinds, transports=TRANSPORTS, chunks=SC.CHUNKSIZES, excs=(0, 1, 2)):
                 fails[j] = SC.EXC[e.pick(f"exc{j}", excs)] if len(fails) == 0 else SC.EXC[excs[0]]
         e.assume(len(fails) > 0)
         transport = e.pick("transport", transports)
-        rerun = e.flag("rerun") if transport != "default" else False
+        rerun = e.flag("rerun") if transport not in ("default", "pool") else False
         nw = e.int("num_workers", 1)
         cs = e.pick("chunksize", chunks)
         return spec, want, shape, fails, transport, rerun, nw, cs
@@ -64,7 +64,7 @@ def mk(N, kinds, transports=TRANSPORTS, chunks=SC.CHUNKSIZES, excs=(0, 1, 2)):
         mon = SC.Monitors(log, e)
         kw = {}
         packf = None
-        if transport == "threaded":
+        if transport in ("threaded", "pool"):
             packf = dask.threaded.pack_exception
         elif transport == "mp":
             packf = MP.pack_exception
@@ -81,7 +81,7 @@ def mk(N, kinds, transports=TRANSPORTS, chunks=SC.CHUNKSIZES, excs=(0, 1, 2)):
                                       pack_exception=MP.pack_exception, raise_exception=MP.reraise,
                                       rerun_exceptions_locally=rerun, loads=SC.logging_loads(log))
             else:
-                res = SC.run_scheduler(e, dsk, keys, nw, cs, log, **ctl_kw)
+                res = SC.run_scheduler(e, dsk, keys, nw, cs, log, pool_semantics=(transport == "pool"), **ctl_kw)
         except Violation:
             raise
         except BaseException as ex:
@@ -142,8 +142,63 @@ def mk(N, kinds, transports=TRANSPORTS, chunks=SC.CHUNKSIZES, excs=(0, 1, 2)):
     return Obligation(f"fail[N={N},kinds={'+'.join(kinds)},tr={'+'.join(transports)}]", setup, run, e2e=e2e, e2e_every=50)
 
 
+class ParseErrorA(ValueError):
+    pass
+
+
+class ParseErrorB(LookupError):
+    pass
+
+
+ParseErrorA.__name__ = ParseErrorB.__name__ = "ParseError"      # two libraries' exception classes with the same name
+ParseErrorA.__qualname__ = ParseErrorB.__qualname__ = "ParseError"
+
+
+class Picky(Exception):
+    """cannot be multiply-inherited with RemoteException's constructor signature"""
+    def __init__(self, a, b):
+        super().__init__(a, b)
+
+
+REMOTE = (ValueError, ParseErrorA, ParseErrorB, KeyError, SC.Boom)
+
+
+def mk_remote(L):
+    """sequences of failures crossing the multiprocessing transport in one parent process: each re-raised exception is an
+    instance of the class that was raised and carries its message (pack_exception -> reraise / remote_exception)"""
+    def setup(e):
+        n = 1 + e.choice("len", L)
+        return ([e.choice(f"cls{t}", len(REMOTE)) for t in range(n)],)
+
+    def run(e, seq):
+        MP.exceptions.clear()
+        out = []
+        for t, ci in enumerate(seq):
+            cls = REMOTE[ci]
+            try:
+                raise cls(f"msg{t}")
+            except Exception as ex:
+                packed = MP.pack_exception(ex, lambda x: x)
+            exc, tb = packed
+            try:
+                MP.reraise(exc, tb)
+                raise Violation("reraise returned")
+            except Violation:
+                raise
+            except Exception as got:
+                e.check(isinstance(got, cls), f"failure {t}: raised {cls.__mro__[1].__name__}-based {cls.__name__}, the scheduler re-raised {type(got).__mro__} "
+                                              f"which is not an instance of it (sequence {[REMOTE[c].__mro__[1].__name__ for c in seq]})")
+                e.check(f"msg{t}" in str(got), "original message lost")
+                out.append(type(got).__name__)
+        MP.exceptions.clear()
+        return out
+
+    return Obligation(f"remote_exception[len<={L}]", setup, run)
+
+
 def obligations(tier):
     if tier == "quick":
-        return [mk(1, ("task",)), mk(2, ("task", "data")), mk(3, ("task", "data"), transports=("default", "threaded"), excs=(0, 2), chunks=(-1, 2))]
+        return [mk(1, ("task",)), mk(2, ("task", "data")), mk(3, ("task", "data"), transports=("default", "threaded", "pool"), excs=(0, 2), chunks=(-1, 2)),
+                mk_remote(3)]
     return [mk(1, ("task", "legacylist")), mk(2, ("task", "data", "alias", "legacylist")),
-            mk(3, ("task", "data", "alias", "legacylist")), mk(4, ("task",), chunks=(-1, 1, 2), excs=(0, 2))]
+            mk(3, ("task", "data", "alias", "legacylist")), mk(4, ("task",), chunks=(-1, 1, 2), excs=(0, 2)), mk_remote(4)]
